@@ -133,8 +133,18 @@ pub fn run(seed: u64, n: usize, w: &mut dyn std::io::Write) {
     for _ in 0..n {
         let (b, mut tags) = gen_buffer(&mut r);
         let table = oracle_table(&b);
-        let got = find_last_valid_footer(&b);
         let refv = reference(&b);
+        // "for any byte string the scan returns ... or nothing": a panic is neither
+        let got = match std::panic::catch_unwind(|| find_last_valid_footer(&b)) {
+            Ok(g) => g,
+            Err(_) => {
+                tags.push("panicked".into());
+                let input = T::Tup(vec![T::H(b.clone()), T::L(table.iter().map(|(k, d)| T::Tup(vec![T::H(k.clone()), T::H(d.clone())])).collect())]);
+                let what = match &refv { Some((p, ..)) => format!("scan-panicked: the scan panicked on a buffer of {} bytes whose last valid footer is at {}", b.len(), p), None => format!("scan-panicked: the scan panicked on a buffer of {} bytes (no valid footer: it must return nothing)", b.len()) };
+                emit(w, "scan", &Case { input, output: T::none(), violation: Some(what), nontrivial: true, tags, key: blake3::hash(&b).to_hex()[..16].to_string() });
+                continue;
+            }
+        };
         let out = match &got {
             None => T::none(),
             Some(s) => T::some(T::Tup(vec![T::N(s.footer_offset as u128), T::N(s.toc_offset as u128), T::N(s.footer.toc_len as u128), T::N(s.footer.generation as u128), T::H(s.toc_bytes.to_vec())])),
